@@ -284,4 +284,18 @@ Section Extract.
              (labels indices : option (list Z)) : list (option wf * row * Z * list Z) :=
     map (fun k => (znth None mem k, znth drow tb k, znth 0 iw k, znth [] cm k))
         (load_rows tb iw labels indices).
+
+  (* The loader as a function of the FILES only: its state is the content of the four files
+     (WaveformsLoader.__init__ re-reads them; load_waveforms writes nothing).  A call sequence: *)
+  Record files := mkFiles { f_traces : list (option wf); f_table : list row; f_iwc : list Z;
+                            f_chans : list (list Z) }.
+  Definition query := (option (list Z) * option (list Z))%type.      (* labels, indices *)
+  Definition loader_call (F : files) (q : query) : files * list (option wf * row * Z * list Z) :=
+    (F, load_waveforms (f_traces F) (f_table F) (f_iwc F) (f_chans F) (fst q) (snd q)).
+  Fixpoint loader_calls (F : files) (qs : list query) : files * list (list (option wf * row * Z * list Z)) :=
+    match qs with
+    | [] => (F, [])
+    | q :: t => let c := loader_call F q in
+                let r := loader_calls (fst c) t in (fst r, snd c :: snd r)
+    end.
 End Extract.
